@@ -56,6 +56,9 @@ struct E4 : Engine {
 			else { o["op"] = "fetch"; o["k"] = koff + (int)r.below(nkeys); o["how"] = 0; }
 			ops.push(o); }
 		p["ops"] = ops;
+		// masked resets (sequential mode): connection resets only, at most one per operation - the client's reconnect-and-retry has to mask each of them, so the
+		// oracle stays exactly as strict as without faults (every operation succeeds, every fetch equals the single-copy model)
+		if(mode == "seq" && r.below(3) == 0){ J f = J::arr(); int nf = 1 + r.below(5); for(int i=0;i<nf;i++){ J ft = J::obj(); ft["at"] = (int)r.below(nops); ft["kind"] = "reset"; ft["after_bytes"] = r.below(4) == 0 ? 0 : (int)r.below(r.below(2) ? 200 : 3000); f.push(ft); } p["faults"] = f; p["masked"] = 1; }
 		if(mode == "fault"){ J f = J::arr(); int nf = 1 + r.below(4);
 			for(int i=0;i<nf;i++){ J ft = J::obj(); unsigned y = r.below(10); ft["at"] = (int)r.below(nops); if(y < 4){ ft["kind"] = "reset"; ft["after_bytes"] = (int)r.below(3000); } else if(y < 7){ ft["kind"] = "restart"; ft["s"] = (int)r.below(ns); }
 				else if(y < 9){ ft["kind"] = "cut"; ft["c"] = (int)r.below(nc); ft["s"] = (int)r.below(ns);
@@ -134,9 +137,11 @@ struct E4 : Engine {
 				ops.push_back(op); who.push_back({c,t}); ticks.push_back(op.kind == "tick" ? (int)std::max<int64_t>(0,std::min<int64_t>(o.geti("s"),100000)) : 0); }
 			// faults
 			struct Fault { int at; std::string kind; int s; int64_t after_bytes; bool armed = false, fired = false; uint64_t base = 0; int c = 0, heal = -1; bool healed = false; };
-			std::vector<Fault> faults; const J &jf = plan.get("faults"); if(fault) for(size_t i=0;i<jf.size() && i<8;i++){ Fault f; f.at = (int)std::max<int64_t>(0,jf.a[i].geti("at")); f.kind = jf.a[i].gets("kind"); f.s = (int)(jf.a[i].geti("s") % ns); f.after_bytes = std::max<int64_t>(0,jf.a[i].geti("after_bytes")); f.c = (int)(((jf.a[i].geti("c") % (int64_t)nc) + nc) % nc); f.heal = (int)jf.a[i].geti("heal",-1); faults.push_back(f); }
-			struct Resetter : simk::Actor { std::vector<Fault> *f; std::map<std::string,int64_t> *cnt; bool enabled() override { for(auto &x:*f) if(x.kind == "reset" && x.armed && !x.fired && simk::stats().bytes_rx + simk::stats().bytes_tx >= x.base + (uint64_t)x.after_bytes) return true; return false; }
-				void step() override { for(auto &x:*f) if(x.kind == "reset" && x.armed && !x.fired && simk::stats().bytes_rx + simk::stats().bytes_tx >= x.base + (uint64_t)x.after_bytes){ x.fired = true; if(simk::reset_accepted_stream(simk::fault_rng().next())) (*cnt)["connection_resets"]++; } } const char *name() override { return "resetter"; } } resetter; resetter.f = &faults; resetter.cnt = &cnt; if(fault) simk::add_actor(&resetter);
+			bool masked = !fault && !conc && plan.geti("masked"); int op_resets = 0; if(masked) cnt["masked_reset_runs"]++;
+			std::vector<Fault> faults; const J &jf = plan.get("faults"); if(fault || masked) for(size_t i=0;i<jf.size() && i<8;i++){ Fault f; f.at = (int)std::max<int64_t>(0,jf.a[i].geti("at")); f.kind = jf.a[i].gets("kind"); f.s = (int)(jf.a[i].geti("s") % ns); f.after_bytes = std::max<int64_t>(0,jf.a[i].geti("after_bytes")); f.c = (int)(((jf.a[i].geti("c") % (int64_t)nc) + nc) % nc); f.heal = (int)jf.a[i].geti("heal",-1); faults.push_back(f); }
+			struct Resetter : simk::Actor { std::vector<Fault> *f; std::map<std::string,int64_t> *cnt; int *op_resets = nullptr;   /* masked mode: one reset per operation at most, none while an earlier one has not been noticed yet */
+				bool enabled() override { if(op_resets && (*op_resets > 0 || simk::unconsumed_resets())) return false; for(auto &x:*f) if(x.kind == "reset" && x.armed && !x.fired && simk::stats().bytes_rx + simk::stats().bytes_tx >= x.base + (uint64_t)x.after_bytes) return true; return false; }
+				void step() override { for(auto &x:*f) if(x.kind == "reset" && x.armed && !x.fired && simk::stats().bytes_rx + simk::stats().bytes_tx >= x.base + (uint64_t)x.after_bytes){ x.fired = true; if(simk::reset_accepted_stream(simk::fault_rng().next())){ (*cnt)["connection_resets"]++; if(op_resets){ (*op_resets)++; (*cnt)["masked_resets"]++; } } if(op_resets) break; } } const char *name() override { return "resetter"; } } resetter; resetter.f = &faults; resetter.cnt = &cnt; if(masked) resetter.op_resets = &op_resets; if(fault || masked) simk::add_actor(&resetter);
 			// worker threads (one per client thread)
 			std::vector<Mail> mail(nc*2); std::vector<std::thread> thr; std::vector<std::string> errs(ops.size());
 			std::vector<std::vector<size_t>> mine(nc*2); for(size_t i=0;i<ops.size();i++) mine[who[i].first*2 + who[i].second].push_back(i);
@@ -151,12 +156,14 @@ struct E4 : Engine {
 				for(size_t i=0;i<ops.size() && res.ok;i++){ Op &op = ops[i]; int w = who[i].first*2 + who[i].second; fail_key = op.key; fail_is_fetch = op.kind == "fetch";
 					for(auto &f:faults) if(f.kind == "cut" && f.armed && !f.healed && f.heal <= (int)i){ f.healed = true; simk::set_link_cut(1 + f.c,"tcp:" + std::to_string(6001 + f.s),false); }
 					for(auto &f:faults) if(f.at == (int)i && !f.armed){ f.armed = true; f.base = simk::stats().bytes_rx + simk::stats().bytes_tx;
+						if(masked && f.kind != "reset") continue;
 						if(f.kind == "cut"){ cnt["partitions"]++; simk::set_link_cut(1 + f.c,"tcp:" + std::to_string(6001 + f.s),true); }
 						if(f.kind == "restart"){ cnt["server_restarts"]++; servers[f.s].reset(); start_server(f.s);
 							// everything that lived on that server is lost
 							for(auto it=model.m.begin();it!=model.m.end();){ if(server_of(it->first,ns) == (unsigned)f.s){ superseded[it->first].push_back(it->second.val); it = model.m.erase(it); } else ++it; } } }
 					if(op.kind == "tick"){ simk::advance_us(ticks[i]*1000000LL); cnt["ticks"]++; continue; }
 					int64_t tnow = simk::now_us()/1000000;
+					op_resets = simk::unconsumed_resets() ? 1 : 0;   // a reset injected while the connection was idle is noticed by this operation: it uses up the operation's budget
 					mail[w].op = &op; mail[w].done = false; mail[w].has = true;
 					bool fin = simk::block([&,w]{ return mail[w].done; },simk::now_us() + 600LL*1000000,"wait-op");
 					if(!fin){ res.fail("operation-hangs","operation " + op.str() + " did not complete within 600 simulated seconds"); break; }
